@@ -221,6 +221,13 @@ func GenDepartmentReclaimScript(t *rapid.T, prop string, o GenOpts) *Script {
 		rw.Pods = append(rw.Pods, PodSpec{Name: fmt.Sprintf("r0-p%d", j), CPUm: 100, MemMi: 128, GPUs: 1, State: "pending"})
 	}
 	s.World.Workloads = append(s.World.Workloads, rw)
+	// further pending jobs of the reclaiming queue: a cycle then solves several reclaimers of one queue back to back,
+	// each of which must be judged on the queue allocations the previous one left behind
+	for i := 1; i <= pick(t, "dmore", 0, 0, 1, 2); i++ {
+		xw := WorkloadSpec{Name: fmt.Sprintf("r%d", i), Queue: "drq0", MinMember: 1, PriorityClass: rw.PriorityClass, AgeSec: int64(rapid.IntRange(1, 5000).Draw(t, "rage"))}
+		xw.Pods = []PodSpec{{Name: fmt.Sprintf("r%d-p0", i), CPUm: 100, MemMi: 128, GPUs: 1, State: "pending"}}
+		s.World.Workloads = append(s.World.Workloads, xw)
+	}
 	s.Ops = genOps(t, o, &s.World)
 	return s
 }
